@@ -50,6 +50,13 @@ func (e *c02Env) newMon(spec c02MonSpec) *c02Mon {
 	return m
 }
 
+// newMonOn: a monitor on an existing manager (the bindings of one hook share the manager).
+func (e *c02Env) newMonOn(spec c02MonSpec, mgr kem.KubeEventsManager) *c02Mon {
+	m := &c02Mon{spec: spec, mgr: mgr, id: fmt.Sprintf("c%d-mon-%d", e.c.Idx, spec.id), cancel: func() {}}
+	e.c.Op(spec.line(), "ok")
+	return m
+}
+
 func (e *c02Env) add(m *c02Mon) bool {
 	err := m.mgr.AddMonitor(m.spec.config(e.cl, m.id))
 	e.op(fmt.Sprintf("add %d", m.spec.id), err)
@@ -127,13 +134,7 @@ func (e *c02Env) stop(m *c02Mon) {
 
 func c02RandSpec(rng *Rng, id int) c02MonSpec {
 	s := c02MonSpec{id: id, kind: rng.Range(1, 2), keep: rng.Bool(), flt: rng.Intn(3)}
-	pickSome := func(n, max int) []int {
-		perm := []int{1, 2, 3, 4}
-		rng.Shuffle(4, func(i, j int) { perm[i], perm[j] = perm[j], perm[i] })
-		k := rng.Range(1, max)
-		_ = n
-		return append([]int{}, perm[:k]...)
-	}
+	pickSome := func(n, max int) []int { _ = n; return c02PickList(rng, max) }
 	switch rng.Intn(6) {
 	case 0: // whole cluster
 	case 1, 2: // static namespaces
@@ -154,6 +155,40 @@ func c02RandSpec(rng *Rng, id int) c02MonSpec {
 		s.excl = rng.Range(1, 4)
 	}
 	return s
+}
+
+// c02PickList: a matchNames list over the ranks 1..4: 1..max distinct entries in random order and,
+// in about a third of the lists, one or two entries repeated at arbitrary positions (adjacent or
+// not, before or after other entries) — matchNames is a plain YAML list, nothing forbids repeats.
+func c02PickList(rng *Rng, max int) []int {
+	perm := []int{1, 2, 3, 4}
+	rng.Shuffle(4, func(i, j int) { perm[i], perm[j] = perm[j], perm[i] })
+	res := append([]int{}, perm[:rng.Range(1, max)]...)
+	if rng.Chance(33) {
+		for r := rng.Range(1, 2); r > 0; r-- {
+			x := res[rng.Intn(len(res))]
+			at := rng.Intn(len(res) + 1)
+			res = append(res[:at], append([]int{x}, res[at:]...)...)
+		}
+	}
+	return res
+}
+
+// c02HasRepeat: some entry occurs twice; nonAdjacent: with a different entry in between.
+func c02HasRepeat(xs []int) (repeat, nonAdjacent bool) {
+	for i := range xs {
+		for j := i + 1; j < len(xs); j++ {
+			if xs[i] == xs[j] {
+				repeat = true
+				for k := i + 1; k < j; k++ {
+					if xs[k] != xs[i] {
+						nonAdjacent = true
+					}
+				}
+			}
+		}
+	}
+	return
 }
 
 func (s c02MonSpec) bucket() string {
@@ -177,6 +212,13 @@ func (s c02MonSpec) bucket() string {
 	}
 	if s.keep {
 		b = append(b, "keepfull")
+	}
+	for _, l := range [][]int{s.names, s.nss} {
+		if rep, gap := c02HasRepeat(l); gap {
+			b = append(b, "matchnames-repeat-nonadjacent")
+		} else if rep {
+			b = append(b, "matchnames-repeat-adjacent")
+		}
 	}
 	b = append(b, fmt.Sprintf("flt%d", s.flt))
 	return strings.Join(b, "+")
@@ -485,7 +527,7 @@ func c02GhostCase(c *Case, variant int) {
 
 func runC02(r *Run) {
 	r.CaseTimeout = 150 * time.Second
-	r.Rule = "real kubeEventsManager/monitor/resourceInformer over kube-client/fake (list/watch made selector-faithful by harness reactors; one CRD group per case so that the process-wide informer factory store is not shared): random binding selectors (all namespaces / namespace.nameSelector / namespace.labelSelector, nameSelector, labelSelector, fieldSelector, keepFullObjectsInMemory, jqFilter / FilterFunc / none) x random histories over 4 namespaces x 4 names x 2 kinds (create, modify inside/outside the filter projection, label flips, delete, delete+recreate, namespace create / relabel / delete with its objects, safe changes between AddMonitor and StartMonitor, restart = second manager on the same cluster); snapshots observed at the Synchronization point and after every burst. Exec cases: real HookConfig.LoadAndValidate + HookController.UpdateSnapshots at Synchronization / Event / Schedule / Group / admission points with the cluster changed between the reads of one execution. Non-trivial: >= 2 creations and >= 2 further changes (monitor cases) or >= 2 contexts / an include list of >= 2 names (exec cases); distinct = distinct op-line sequences."
+	r.Rule = "real kubeEventsManager/monitor/resourceInformer over kube-client/fake (list/watch made selector-faithful by harness reactors; one CRD group per case so that the process-wide informer factory store is not shared): random binding selectors (all namespaces / namespace.nameSelector / namespace.labelSelector, nameSelector, labelSelector, fieldSelector, keepFullObjectsInMemory, jqFilter / FilterFunc / none) x random histories over 4 namespaces x 4 names x 2 kinds (create, modify inside/outside the filter projection, label flips, delete, delete+recreate, namespace create / relabel / delete with its objects, safe changes between AddMonitor and StartMonitor, restart = second manager on the same cluster); snapshots observed at the Synchronization point and after every burst. Multi cases: 2-5 bindings (monitors) over one cluster, on one shared or on separate managers, whose selectors are derived from one base so that their informers fall on the same process-wide shared informer (same kind / namespace / label / field selector), started and stopped (StopMonitor) at random points of the history, namespaces leaving a namespace.labelSelector binding while a sibling still watches them; every live monitor is observed after every step. matchNames lists carry repeated entries at arbitrary positions in about a third of the lists. Exec cases: real HookConfig.LoadAndValidate + HookController.UpdateSnapshots at Synchronization / Event / Schedule / Group / admission points with the cluster changed between the reads of one execution. Non-trivial: >= 2 creations and >= 2 further changes (monitor cases) or >= 2 contexts / an include list of >= 2 names (exec cases); distinct = distinct op-line sequences."
 	r.One(0, func(c *Case, _ *Rng) { c02DupNamesCase(c, false) })
 	r.One(1, func(c *Case, _ *Rng) { c02DupNamesCase(c, true) })
 	for v := 0; v < 3; v++ {
@@ -499,6 +541,8 @@ func runC02(r *Run) {
 		c02MonitorCase(c, rng, spec, rng.Chance(25), rng.Range(3, 8))
 	})
 	runC02Exec(r)
+	r.Cases(300000, r.N(160, 2500), 0, func(c *Case, rng *Rng) { c02MultiCase(c, rng) })
+	r.Cases(400000, r.N(150, 1500), 0, func(c *Case, rng *Rng) { c02CfgCase(c, rng) })
 	r.Cases(200000, r.N(150, 2000), 0, func(c *Case, rng *Rng) { c02ConcCase(c, rng) })
 	if r.Thorough() {
 		runC02Exhaustive(r)
